@@ -534,7 +534,7 @@ def run(ctx):
             bodies = hostile_bodies(rng, P, quick)
             bodies += mutations(rng, P, [b for b in bodies if b[0] in ("nest_next", "nest_kids", "size_exact", "union_two",
                                                                        "required_present", "nest_unknown", "pending_bool")],
-                                300 if quick else 4000)
+                                300 if quick else 20000)
             payloads = []
             for (label, meth, body) in bodies:
                 payloads.append((label, HEADER + P.msg(meth) + body))
@@ -542,7 +542,7 @@ def run(ctx):
                     payloads.append((label + "_unknown_fn", HEADER + P.msg(b"nosuch") + body))     # Skip(STRUCT) on the same bytes
             for (label, msg) in message_headers(rng, P):
                 payloads.append((label, HEADER + msg))
-            for _ in range(60 if quick else 600):
+            for _ in range(60 if quick else 3000):
                 payloads.append(("random", HEADER + bytes(rng.randrange(256) for _ in range(rng.randrange(0, 24)))))
                 payloads.append(("random_after_msg", HEADER + P.msg(rng.choice([b"walk", b"fill", b"poke", b"grid", b"note"]))
                                  + bytes(rng.choice([0, 1, 2, 8, 11, 12, 13, 15, 0x19, 0x1c, 0x2b, 0xf8, 0xff, rng.randrange(256)])
@@ -593,7 +593,7 @@ def run(ctx):
             canary = HEADER + P.msg(b"walk") + nest_next(P, 0)
             sel = [p for p in payloads if p[0] in ("nest_next", "size_nothing", "lying_type", "msg_truncated", "random", "varint",
                                                    "nest_unknown", "bad_header", "truncate")]
-            sel = rng.sample(sel, min(len(sel), 60 if quick else 400)) + [big[1]]
+            sel = rng.sample(sel, min(len(sel), 60 if quick else 1500)) + [big[1]]
             sobs = run_payloads(lb, skey, P, [p for (_, p) in sel], mode="simple", canary=canary, batch=40)
             for (label, payload), o in zip(sel, sobs):
                 stats["simple_payloads"] += 1
